@@ -1961,7 +1961,7 @@ def c10_cases(seed, tier):
     """(func, blocks, args, meta) ; block 0 = result cell (8 bytes), block 1 = dest, block 2 = src"""
     import random, itertools
     rng = random.Random(seed); cs = []; n = [0]
-    alpha = [0x61, 0x62, 0x41, 0x42, 0x30, 0x20, 0x80, 0xe9, 0xff, 0x7a]
+    alpha = [0x61, 0x62, 0x41, 0x42, 0x30, 0x20, 0x80, 0xe9, 0xff, 0x7a, 0x5f, 0x5b]     # incl. '_' and '[' (between 'Z' and 'a': case folding direction matters)
     maxlen = 4 if tier == 'quick' else 5
     small = [0x61, 0x62, 0x41, 0xe9]
     strs = [list(t) for k in range(0, maxlen + 1) for t in itertools.product(small, repeat=k)]
@@ -1984,6 +1984,10 @@ def c10_cases(seed, tier):
             e = list(d); e[-1] = rng.choice(alpha); cand.append(e)
         cand.append(rng.choice(strs))
         for s in cand[: (4 if tier == 'quick' else 7)]: pairs.append((d, s))
+    # characters between 'Z' and 'a' against letters of either case: the sign depends on the direction of the case folding
+    for x in (0x5b, 0x5c, 0x5d, 0x5e, 0x5f, 0x60):
+        for y in (0x41, 0x5a, 0x61, 0x7a):
+            pairs += [([x], [y]), ([y], [x]), ([0x61, x], [0x41, y]), ([0x42, y, 0x63], [0x62, x])]
     for d, s in pairs:
         D = d + [0] + [0x61, 0x7a, 0]      # bytes after the terminator are part of the object, not of the string
         S = s + [0]
@@ -2088,8 +2092,8 @@ def c10_reference(c):
             sg = lambda l: [x - (1 << 32) if x >= 1 << 31 else x for x in l]
             return (EOK, ('sign', _cmp(sg(d[:n]), sg(s[:n]))))
         if f == 'strcasecmp_s':
-            up = lambda l: [x - 32 if 0x61 <= x <= 0x7a else x for x in l]
-            return (EOK, ('sign', _cmp(up(d[:n]), up(s[:n]))))
+            lo = lambda l: [x + 32 if 0x41 <= x <= 0x5a else x for x in l]     # POSIX strcasecmp: as if both were converted to lower case
+            return (EOK, ('sign', _cmp(lo(d[:n]), lo(s[:n]))))
         return (EOK, ('sign', _cmp(d[:n], s[:n])))
     if f in ('strchr_s', 'strrchr_s', 'strfirstchar_s', 'strlastchar_s'):
         ch = m['ch'] & 0xff
